@@ -106,8 +106,8 @@ func genC02(t *rapid.T) c02Case {
 			{Op: "hold"}, {Op: "restart", X: 1}, // b is back but cannot catch up
 			{Op: "lag", X: 2}, // c stops applying metadata
 			{Op: "leader", X: 0, Sel: 0}, // b is elected; c does not know
-			{Op: "publish", N: rapid.IntRange(3, 5).Draw(t, "n2"), Policy: 1}, {Op: "settle"},
-			{Op: "publish", N: rapid.IntRange(1, 2).Draw(t, "n3"), Policy: 1}, {Op: "settle"},
+			{Op: "publish", N: rapid.IntRange(3, 5).Draw(t, "n2"), Policy: 1},
+			{Op: "publish", N: rapid.IntRange(1, 2).Draw(t, "n3"), Policy: 1},
 			{Op: "unlag"}, {Op: "settle"},
 			{Op: "publish", N: 1, Policy: 2}, {Op: "settle"},
 		}
@@ -529,6 +529,17 @@ func runC02(c c02Case, o *vfutil.Obs) *vfutil.Failure {
 			time.Sleep(time.Millisecond)
 		case "settle":
 			if heldBy[leader] {
+				continue
+			}
+			stuck := false
+			for _, id := range ids {
+				if n := w.nodes[id]; n.up && n.lagging && isr[id] && id != leader {
+					stuck = true // an in-sync replica that does not follow: nothing can be committed
+				}
+			}
+			if stuck {
+				time.Sleep(5 * time.Millisecond)
+				w.hist = append(w.hist, "settle-skipped")
 				continue
 			}
 			if !settle() {
